@@ -315,6 +315,47 @@ class Sym:
             return Sym(Poly.atom(a))
         return sub_poly(self.num) / sub_poly(self.den)
 
+    # ---- exact evaluation of the *normal form* at a rational point (used only to exhibit a
+    # concrete, realisable counterexample for a decision table; never runs repo code)
+    def evaluate(self, assign):
+        import math
+
+        def ev_atom(a):
+            if a[0] == 'v':
+                if a[1] not in assign:
+                    raise KeyError(a[1])
+                return Fraction(assign[a[1]])
+            vals = [x.evaluate(assign) for x in a[2]]
+            f = a[1]
+            if f == 'FLOOR':
+                return Fraction(math.floor(vals[0]))
+            if f == 'CEIL':
+                return Fraction(math.ceil(vals[0]))
+            if f == 'TRUNC':
+                return Fraction(math.trunc(vals[0]))
+            if f == 'ROUND':
+                return Fraction(round(vals[0]))
+            if f == 'ABS':
+                return abs(vals[0])
+            if f == 'MAX':
+                return max(vals)
+            if f == 'MIN':
+                return min(vals)
+            raise KeyError(f)
+
+        def ev_poly(p):
+            tot = Fraction(0)
+            for m, c in p.terms.items():
+                t = c
+                for a, e in m:
+                    t *= ev_atom(a) ** e
+                tot += t
+            return tot
+        d = ev_poly(self.den)
+        if d == 0:
+            raise ZeroDivisionError
+        return ev_poly(self.num) / d
+
     # ---- printing
     def __repr__(self):
         return show(self)
